@@ -214,6 +214,16 @@ def run_case(ctx, rep, spec, recipe, kept, serial, model, start=None, species=No
         rep.agree()
     else:
         rep.tie("chef's output layout (file, offset per box) differs from the model's", case)
+    mn = leanio.driver([{"op": "names", "tool": "chef", "names": list(names), "kept": kept.split() if kept else [], "new": new_names}])[0]
+    if sorted(mn.get("fields", [])) == sorted(Q["fields"]) and mn.get("kept_indices") == kept_idx:
+        rep.agree()
+    else:
+        rep.tie("the fields chef wrote differ (as a set) from the Lean kept-plus-new rule", case, {"real": Q["fields"], "model": mn})
+    cert = tastelib.wf_certificate(out, leanio)
+    if cert is None:
+        rep.agree(); rep.count("wf-certificate-passes")
+    elif cert != "names":
+        rep.tie(f"chef's output does not pass the Lean well-formedness certificate ({cert})", case)
     why = writers.global_header_theorem_applies(out, leanio)
     if why:
         rep.tie(f"global header of chef's output: {why} (whose parse-after-render law is proved)", case)
